@@ -447,6 +447,7 @@ type GenCfg struct {
 	Garbage    int  // per mille of variable values that are arbitrary text
 	LeadSaves  bool // the script starts with one to three save statements
 	SmallPool  bool // only three account names: repetition within one source becomes the norm
+	CallWeight   int  // weight of set_tx_meta / set_account_meta statements (default 18, sends weigh 70)
 	LiteralSaves bool // save statements use literal amounts and accounts only
 	OriginProb int    // n: one new variable in n gets an origin (default 4)
 	Directed   string // "" or the name of a directed template (gen_directed.go)
@@ -796,7 +797,7 @@ func (g *Gen) exprOf(typ string, depth int) *GExpr {
 		return g.varOf("portion")
 	case "string":
 		if g.r.Chance(7, 10) {
-			return &GExpr{Kind: XString, S: g.r.Pick([]string{"k", "key", "hello world", "", "é", "a\\\"b", "fee"})}
+			return &GExpr{Kind: XString, S: g.r.Pick([]string{"k", "k", "k", "key", "key", "hello world", "", "é", "a\\\"b", "fee"})}
 		}
 		return g.varOf("string")
 	}
@@ -1188,6 +1189,11 @@ func (g *Gen) callStmt() *GStmt {
 	case 1:
 		c.Name = "set_account_meta"
 		c.Args = []*GExpr{g.exprOf("account", 0), g.exprOf("string", 0), g.exprOf("any", 2)}
+		if g.r.Chance(1, 2) {
+			// a small set of (account, key) pairs, so that a later statement overrides an earlier one
+			c.Args[0] = &GExpr{Kind: XAccount, S: g.r.Pick([]string{"a", "b"})}
+			c.Args[1] = &GExpr{Kind: XString, S: g.r.Pick([]string{"k", "key"})}
+		}
 	default:
 		c.Name = g.r.Pick([]string{"set_tx_meta", "set_account_meta", "balance", "meta", "foo", "overdraft"})
 		n := g.r.Intn(5)
@@ -1279,6 +1285,9 @@ func (g *Gen) Program() *GProgram {
 		}
 		if g.cfg.Calls {
 			w[2] = 18
+			if g.cfg.CallWeight > 0 {
+				w[2] = g.cfg.CallWeight
+			}
 		}
 		switch g.r.Weighted(w...) {
 		case 0:
